@@ -1,5 +1,19 @@
 /-
   C05 — stabilizer state comparison and fidelity are exact.
+
+  Contents (every theorem for every n; nothing conditional since `C11.inverse_circuit_complete`):
+  * canonical form / equality   `canonical_form_preserves_state`, `canonical_form_returns_canon`, `canon_shape_unique`,
+                                `canonical_form_is_normal_form`, `canonical_form_returns_iff_independent`,
+                                `canonical_form_idempotent`, `equality_sound`, `equality_exact`, `equality_is_equivalence`,
+                                `sign_matters`, `shape_checker_sound`
+  * fidelity, group level       `inner_product_zero_iff`, `inner_product_exponent`, `inner_product_exponent_counts`,
+                                `overlap_dim_unique`, `fidelity_self`, `fidelity_self_returns`, `fidelity_one_iff`,
+                                `fidelity_symmetric`, `fidelity_presentation_independent`, `fidelity_circuit_invariant`,
+                                `fidelity_value_set`, `inner_product_returns`, `inner_product_returns_only_if`
+  * fidelity, Hilbert space     `fidelity_is_state_overlap`, `fidelity_is_squared_inner_product`,
+                                `fidelity_on_valid_tableaux`, `mixture_fidelity_is_state_overlap`,
+                                `same_density_matrix_iff_same_group`, `same_state_iff_same_group`
+  * executable specification    `overlap_spec_checker_exact`, `overlap_spec_count_exact`
 -/
 import GraphiqModel.Proofs.InverseCircuit
 import GraphiqModel.Proofs.CanonUnique
